@@ -7,7 +7,7 @@ CONSTANTS
   MaxStack = 1
   BindVals <- BV12
   MaxBindings = 4
-  Enabled = {"BindSp", "Query", "Register", "Call", "Finalize", "RegisterHook"}
+  Enabled = {"BindSp", "Query", "Register", "GetBindings", "Call", "Finalize", "RegisterHook"}
   NameOrder <- NamesPQ
   HookUniverse <- SpHooks
   BindApis = {"string", "text", "block"}
